@@ -443,6 +443,29 @@ M('C10', 'coupling terms overwrite instead of accumulate', TERMS,
   'd3[op_j] = d3.get(op_j, 0) + strength', 'd3[op_j] = strength', 'TERMS-accumulate')
 
 # ---------------------------------------------------------------- C12
+M('C12', 'multi-coupling handler multiplies JW before the toggle', TERMS,
+  """                if JW_right:
+                    new_op_str.append('JW')""", """                if not op_needs_JW[x] and JW_right:
+                    new_op_str.append('JW')""", 'JW-entry')
+M('C12', 'multi-coupling handler accepts an odd number of fermionic operators', TERMS,
+  "            if JW_right:\n                raise ValueError('odd number of Jordan Wigner strings')\n", "",
+  'JW-entry')
+M('C12', 'get_hc_op_name keeps the factor order', SITE, "for name2 in reversed(names):", "for name2 in names:",
+  'SITE-hc-name')
+M('C12', 'get_hc_op_name reverses the result instead (equivalent)', SITE,
+  """        for name2 in reversed(names):
+            hc_name_2 = self.hc_ops.get(name2)
+            if hc_name_2 is None:
+                raise ValueError(f'hermitian conjugate of operator {name2!s} unknown')
+            hc_names.append(hc_name_2)
+        return ' '.join(hc_names)""",
+  """        for name2 in names:
+            hc_name_2 = self.hc_ops.get(name2)
+            if hc_name_2 is None:
+                raise ValueError(f'hermitian conjugate of operator {name2!s} unknown')
+            hc_names.insert(0, hc_name_2)
+        return ' '.join(hc_names)""", None, 'silent')
+M('C12', 'grouped site restores the JW list only', SITE, "                Ids[i] = site.Id\n", "", 'GROUPED-jw')
 M('C12', 'coupling handler accepts a single fermionic operator', TERMS,
   "            elif need_JW_i or need_JW_j:\n                raise ValueError('Only one of the operators needs a Jordan-Wigner string?!')\n",
   "", 'JW-entry')
